@@ -21,6 +21,9 @@ FIELD_POOL = ['temp', 'density', 'x_velocity', 'y_velocity', 'z_velocity', 'volF
               'rhoh', 'pressure', 'a', 'b_c', 'field 7', 'avg_pressure', 'mixture_fraction']
 
 
+MAX_PAYLOAD_BYTES = 1000000
+
+
 class Level:
     def __init__(self):
         self.boxes = []      # list of (lo tuple, hi tuple) inclusive index ranges
@@ -333,6 +336,13 @@ def gen_plotfile(rng, ndims=None, nlevels=None, payload=None, geo_stream=None,
         pf.n0, mesh = gen_mesh_chunky(rng, pf.ndims, nlevels, pf.bf)
     else:
         pf.n0, mesh = gen_mesh(rng, pf.ndims, nlevels, pf.bf, max_blocks=max_blocks)
+    # a cap on the payload (the list-based model is quadratic in the size of a binary file): the finest levels of a mesh
+    # that would hold more than a megabyte are dropped (four levels of blocking factor 4 in 3D can reach several)
+    def _cells(boxes):
+        return sum(int(np.prod([h - l + 1 for l, h in zip(lo, hi)])) for lo, hi in boxes)
+    while len(mesh) > 1 and sum(_cells(b) for b in mesh) * len(pf.fields) * 8 > MAX_PAYLOAD_BYTES:
+        mesh = mesh[:-1]
+        nlevels -= 1
     extra = []
     if odd_names and r2.random() < odd_names and len(pf.fields) >= 2:
         # names that only differ by case (the twin of field 0 comes later), names with format / regex
